@@ -91,3 +91,97 @@ def ob_pattern_types(r, tier, seed):
 
 def obligations():
     return [Ob('O3.4-literal-pattern-types', 'check_pat relates every literal pattern to the type of the matched value', ob_pattern_types, ('quick', 'thorough'), 3, {})]
+
+# ----------------------------------------------------------------------------- O3.5 builtin operators are typed by their signatures
+NUM = ['TInt8', 'TInt16', 'TInt32', 'TInt64', 'TUint8', 'TUint16', 'TUint32', 'TUint64', 'TFloat32', 'TFloat64']
+BOPS = {'Add': '+', 'Sub': '-', 'Mul': '*', 'Div': '/', 'And': '&&', 'Or': '||', 'Less': '<', 'Greater': '>', 'LessEq': '<=', 'GreaterEq': '>=', 'Eq': '==', 'NotEq': '!='}
+UOPS = {'Neg': '-', 'Not': '!'}
+
+def op_rule(op, lt, rt):
+    """True = must be accepted, False = must be rejected, None = either (not fixed by the property)"""
+    if op in ('And', 'Or'): return lt == 'TBool' and rt == 'TBool'
+    if lt != rt: return False
+    if op == 'Add': return True if lt in NUM + ['TString'] else False
+    if op in ('Sub', 'Mul', 'Div'): return lt in NUM
+    if op in ('Less', 'Greater', 'LessEq', 'GreaterEq'): return True if lt in NUM else (None if lt == 'TString' else False)
+    return None if lt not in NUM + ['TBool', 'TString'] else True          # == / != on scalars
+
+def replay_op(op, lt, rt):
+    if rt is None: src = 'fn f(a: %s) -> unit { let r = %sa; () }\n' % (goml_ty(lt), UOPS[op])
+    else: src = 'fn f(a: %s, b: %s) -> unit { let r = a %s b; () }\n' % (goml_ty(lt), goml_ty(rt), BOPS[op])
+    src += 'fn main() -> unit { () }\n'
+    d = tempfile.mkdtemp(prefix='vf-c03-')
+    try:
+        open(os.path.join(d, 'main.gom'), 'w').write(src)
+        p = subprocess.run([build.compiler_bin(), 'run', '--dump-tast', os.path.join(d, 'main.gom')], capture_output=True, text=True, timeout=60)
+    finally: shutil.rmtree(d, ignore_errors=True)
+    txt = p.stdout + p.stderr
+    return 'error (' in txt or 'error:' in txt, src.replace('\n', ' | '), txt[:160].replace('\n', ' | ')
+
+def ob_operator_types(r, tier, seed, unary=False):
+    W = e2.fresh_world(CRATES); tt = W.tt
+    TY = tt.find_adt(['tast', 'Ty'], 'compiler'); TE = tt.find_adt(['tast', 'Expr'], 'compiler'); TYPER = tt.find_adt(['typer', 'Typer'], 'compiler')
+    DI = tt.find_adt(['diagnostics', 'Diagnostics'], 'diagnostics')
+    BOP = tt.find_adt(['common_defs', 'BinaryOp'], 'common_defs'); UOP = tt.find_adt(['common_defs', 'UnaryOp'], 'common_defs')
+    ops = sorted(UOPS) if unary else sorted(BOPS)
+    r.bounds = 'every builtin %s operator %s on operands of every scalar type %s (all %s)' % ('unary' if unary else 'binary', ops, TYS, 'operand types' if unary else 'pairs of operand types')
+    r.assumptions = ['infer_expr on the operands is stubbed by variables of the chosen types; then the real infer_%s_expr, the real Typer::solve (ena union-find modelled) and the real Typer::subst run' % ('unary' if unary else 'binary'),
+                     'oracle (operator signatures): && || ! take bool; + takes two operands of one numeric type or two strings; - * / and unary - take numeric operands of one type; < > <= >= take two operands of one numeric type (strings: not fixed); == != take two operands of one type; everything else must be rejected with a diagnostic']
+    from props import c03 as c03m
+    c3 = c03m.Ctx(W); cur = {}
+    def ov(f, g):
+        if 'TypeckResultsBuilder' in g and 'record_' in g:
+            def m_record(ex, f_, a): return UNIT
+            return m_record
+        return None
+    W.overrides = [ov, c03m.ena_overrides(c3)]
+    for meth in ('record_pat_ty', 'record_local_ty', 'record_expr_ty', 'record_binary_resolution', 'record_unary_resolution'):
+        for nm in list(W.methods.get(meth, [])): W.stubs[nm[1]] = lambda ex, a: UNIT
+    def stub_infer_expr(ex, a):
+        eid = a[4]
+        while isinstance(eid, Agg): eid = eid.fields[0]
+        t = cur['tys'][eid]; v = TE.variants[TE.vindex('EVar')]
+        return Agg(TE.key, TE.vindex('EVar'), [{'name': mkstr('ab'[eid]), 'ty': Agg(TY.key, TY.vindex(t), []), 'astptr': ms.NONE()}[f[0]] for f in v.fields])
+    for nm in list(W.methods.get('infer_expr', [])):
+        if nm[2] is not None and nm[2].self_key == 'Typer': W.stubs[nm[1]] = stub_infer_expr
+    def entry(ex):
+        op = ex.choose([(True, o) for o in ops]); lt = ex.choose([(True, t) for t in TYS]); rt = None if unary else ex.choose([(True, t) for t in TYS])
+        cur['tys'] = [lt, rt]
+        typer = Agg(TYPER.key, 0, [{'uni': c03m.UTable(), 'constraints': PyVec([]), 'hir_table': Opaque('hir_table'), 'results': Opaque('results')}[f[0]] for f in TYPER.variants[0].fields])
+        h = {0: typer, 1: Opaque('genv'), 2: Opaque('local_env'), 3: Agg(DI.key, 0, [PyVec([])])}
+        eid = lambda i: Agg('ExprId', 0, [i])
+        if unary: e = ex.call('Typer::infer_unary_expr', [Ref(h, 0), Ref(h, 1), Ref(h, 2), Ref(h, 3), Agg(UOP.key, UOP.vindex(op), []), eid(0)])
+        else: e = ex.call('Typer::infer_binary_expr', [Ref(h, 0), Ref(h, 1), Ref(h, 2), Ref(h, 3), Agg(BOP.key, BOP.vindex(op), []), eid(0), eid(1)])
+        ex.call('Typer::solve', [Ref(h, 0), Ref(h, 1), Ref(h, 3)])
+        ex.call('Typer::subst', [Ref(h, 0), Ref(h, 3), e])
+        return op, lt, rt, len(h[3].fields[0].items)
+    res = e2.explore(r, W, entry, [])
+    found = {}
+    for p in res:
+        r.cases += 1
+        if p.kind != 'ok': found.setdefault('panic', ('operator typing panics: %s' % p.value, None)); continue
+        op, lt, rt, nd = p.value
+        want = op_rule(op, lt, rt) if not unary else ((lt in NUM) if op == 'Neg' else (lt == 'TBool'))
+        r.nontrivial += 1
+        if want is None: continue
+        sym = (UOPS if unary else BOPS)[op]
+        shown = '%s%s' % (sym, goml_ty(lt)) if unary else '%s %s %s' % (goml_ty(lt), sym, goml_ty(rt))
+        if want is False and nd == 0:
+            cls = 'unary-minus-on-non-numeric' if unary else ('arithmetic-on-non-numeric' if op in ('Add', 'Sub', 'Mul', 'Div') else 'ordering-on-non-numeric' if op in ('Less', 'Greater', 'LessEq', 'GreaterEq') else 'operand-types-unrelated')
+            found.setdefault('ill-typed-operator-accepted:' + cls, ('`%s` is accepted without a diagnostic' % shown, (op, lt, rt)))
+        elif want is True and nd > 0: found.setdefault('well-typed-operator-rejected', ('`%s` is rejected' % shown, (op, lt, rt)))
+        elif len(r.samples) < 3: r.samples.append({'expr': shown, 'accepted': nd == 0})
+    for key, (what, w) in found.items():
+        ok_, detail = True, 'diagnostics read after the real infer / solve / subst MIR'
+        if w is not None:
+            try:
+                rejected, src, txt = replay_op(*w)
+                ok_ = (not rejected) if key.startswith('ill-typed') else rejected
+                detail = 'goml `%s`: %s' % (src, 'rejected: ' + txt if rejected else 'accepted without a diagnostic')
+            except Exception as e: ok_, detail = False, 'replay failed: %s' % str(e)[:200]
+        r.findings.append(Finding(key, what, {'op': w[0] if w else None, 'types': list(w[1:]) if w else None}, ok_, detail))
+
+_obs34 = obligations
+def obligations():
+    return _obs34() + [Ob('O3.5-binary-operator-types', 'builtin binary operators accept exactly the operand types of their signatures', ob_operator_types, ('quick', 'thorough'), 10, dict(unary=False)),
+                       Ob('O3.5-unary-operator-types', 'builtin unary operators accept exactly the operand types of their signatures', ob_operator_types, ('quick', 'thorough'), 2, dict(unary=True))]
